@@ -232,7 +232,7 @@ func (e *Executor) RunTask(ctx context.Context, call *Call) error {
 
 		for i := range t.Cmds {
 			if t.Cmds[i].Defer {
-				defer e.runDeferred(t, call, i, &deferredExitCode)
+				defer e.runDeferred(ctx, t, call, i, &deferredExitCode)
 				continue
 			}
 
@@ -307,8 +307,10 @@ func (e *Executor) runDeps(ctx context.Context, t *ast.Task) error {
 	return g.Wait()
 }
 
-func (e *Executor) runDeferred(t *ast.Task, call *Call, i int, deferredExitCode *uint8) {
-	ctx, cancel := context.WithCancel(context.Background())
+func (e *Executor) runDeferred(ctx context.Context, t *ast.Task, call *Call, i int, deferredExitCode *uint8) {
+	// Deferred commands run even when the task was cancelled, but they are still
+	// part of the executions the task is nested in (see executionChainKey)
+	ctx, cancel := context.WithCancel(context.WithoutCancel(ctx))
 	defer cancel()
 
 	origTask, err := e.GetTask(call)
